@@ -350,6 +350,8 @@ def loop_writes(ex: Exec, st: ast.stmt) -> list[tuple[ast.expr | None, tuple[str
                     continue
                 if name in _PURE_METHODS:
                     continue
+                if _is_callable_field(name):
+                    continue  # first-class callable stored in a record: pure by assumption (apply_fn)
                 return None
             if isinstance(f, ast.Name):
                 if f.id in _PURE_FUNCS or f.id in ex.locals:
@@ -357,6 +359,16 @@ def loop_writes(ex: Exec, st: ast.stmt) -> list[tuple[ast.expr | None, tuple[str
                 return None
             return None
     return out
+
+
+def _is_callable_field(name: str) -> bool:
+    from .source import INDEX
+
+    for ci in INDEX.classes.values():
+        for fld in ci.fields:
+            if fld.name == name and fld.ty.kind == "obj" and fld.ty.cls == "function":
+                return True
+    return False
 
 
 def default_loop_spec(ex: Exec, st: ast.stmt, ordinal: int) -> dict:
